@@ -1,11 +1,13 @@
 #!/bin/bash
-# usage: tools/try_mutant.sh <patch.diff> <prop> [<prop>...]   -- applies the patch to /repo, runs the checks, ALWAYS reverts
+# usage: tools/try_mutant.sh <patch.diff> <prop> [<prop>...]   -- applies the patch to ${VERIF_REPO:-/repo}, runs the checks, ALWAYS reverts
+V=$(cd $(dirname $0)/..; pwd)
 patch="$1"; shift
-cd /repo || exit 3
+R=${VERIF_REPO:-/repo}
+cd $R || exit 3
 if ! git diff --quiet; then echo "/repo has uncommitted changes"; exit 3; fi
 git apply "$patch" || { echo "patch does not apply"; exit 3; }
-trap 'git -C /repo checkout -- . ' EXIT
-cd /verif
+trap "git -C $R checkout -- . " EXIT
+cd $V
 for p in "$@"; do
   ./check "$p" --tier ${TIER:-quick} 2>&1 | sed "s/^/[$p] /" | head -${LINES_MAX:-8}
   echo "[$p] exit=${PIPESTATUS[0]}"
